@@ -639,7 +639,7 @@ func gwRuleBinding(c *core.Ctx) {
 	c.Check(okCopy, "every backendRef of the rule is passed to createBackend", at(c, mkBack), "", "the list given to createBackend is not filled from rule.BackendRefs in a loop")
 	// hosts
 	fa := filt.Call.Args
-	c.Check(strings.HasSuffix(core.Key(fa[1]), ".Hostname") && strings.Contains(core.Key(fa[1]), "Listeners[") || leavesContain(sliceLeaves(c.Env, fa[1], 0), "listener.Hostname"), "host names are filtered by this listener's host name", at(c, filt), "", "first argument "+core.Key(fa[1]))
+	c.Check(strings.HasSuffix(core.Key(fa[1]), ".Hostname") && strings.Contains(core.Key(fa[1]), "Listeners[") || leavesContain(sliceLeaves(c.Env, fa[1], 0), ".Hostname"), "host names are filtered by this listener's host name", at(c, filt), "", "first argument "+core.Key(fa[1]))
 	c.Check(strings.HasSuffix(core.Key(fa[2]), "httpRouteSource.spec.Hostnames"), "host names come from this route", at(c, filt), "", "second argument "+core.Key(fa[2]))
 	ha := mkHosts.Call.Args // c, source, hostnames, matches, backend
 	c.Check(ha[2] == ssa.Value(filt), "hosts are created for the filtered names", at(c, mkHosts), "", "hostnames argument "+core.Key(ha[2]))
@@ -690,7 +690,7 @@ func gwRuleBinding(c *core.Ctx) {
 				c.Check(strings.Contains(core.Key(cc.Args[1]), "GetService(") && strings.Contains(core.Key(cc.Args[2]), "FindServicePort("), "createBackend takes the endpoints of that service and port", at(c, s.Instr), "", "CreateEndpoints("+core.Key(cc.Args[1])+", "+core.Key(cc.Args[2])+")")
 			}
 		}
-		for _, a := range appendsTo(cb, "backends") {
+		for _, a := range appendsTo(cb, "backends", func(a *ssa.Call) bool { return strings.Contains(a.Type().String(), "backend") && core.InnermostLoop(cb, a.Block()) != nil }) {
 			ok := guardedBy(a, has(".Port == nil)"), false) && guardedBy(a, has("GetService(", "#1 != nil)"), false) && guardedBy(a, has("FindServicePort(", " == nil)"), false) && guardedBy(a, has("CreateEndpoints(", "#2 != nil)"), false)
 			c.Check(ok, "a backendRef becomes servers only with a port, a service, a known port and readable endpoints", at(c, a), "", "the group is recorded without passing all four tests")
 		}
@@ -707,11 +707,25 @@ func overrideEdgeGuarded(fn *ssa.Function, name, from string, tests [2]string) (
 	for _, b := range fn.Blocks {
 		for _, in := range b.Instrs {
 			ph, isPhi := in.(*ssa.Phi)
-			if !isPhi || ph.Comment != name {
+			if !isPhi {
 				continue
 			}
+			if ph.Comment != name {
+				// renamed: the variable is the phi that has an edge from the parentRef field
+				has := false
+				for _, e := range ph.Edges {
+					if strings.HasSuffix(core.Key(e), from) {
+						if _, carried := e.(*ssa.Phi); !carried {
+							has = true
+						}
+					}
+				}
+				if !has {
+					continue
+				}
+			}
 			for i, e := range ph.Edges {
-				if !strings.Contains(core.Key(e), from) {
+				if !strings.HasSuffix(core.Key(e), from) {
 					continue
 				}
 				if _, loopCarried := e.(*ssa.Phi); loopCarried {
@@ -742,7 +756,7 @@ func gwParentDefaults(c *core.Ctx) {
 		return
 	}
 	for _, x := range []struct{ v, field string }{{"parentGroup", "Group"}, {"parentKind", "Kind"}, {"namespace", "Namespace"}} {
-		found, ok, detail := overrideEdgeGuarded(fn, x.v, "parentRef."+x.field, [2]string{"parentRef." + x.field + " != nil)", "parentRef." + x.field + ` != "")`})
+		found, ok, detail := overrideEdgeGuarded(fn, x.v, "."+x.field, [2]string{"." + x.field + " != nil)", "." + x.field + ` != "")`})
 		c.Check(found && ok, "syncRoute takes the parentRef's "+strings.ToLower(x.field)+" only when it sets a non-empty one", c.Pos(fn.Pos()), detail, "the explicit "+x.field+" is used "+detail+" (found: "+fmt.Sprint(found)+"): an explicit foreign value is ignored (the default attaches the route) or an empty one replaces the default")
 	}
 }
